@@ -27,10 +27,9 @@ RefStep(b, p, ds, nul) ==
           IN IF e = nul THEN [tok |-> st, len |-> e - st, b |-> b, pos |-> nul, hitend |-> TRUE]
              ELSE [tok |-> st, len |-> e - st, b |-> [b EXCEPT ![e] = 0], pos |-> e + 1, hitend |-> FALSE]
 
-Init == \E str \in Strs(L), extra \in {0, 1, 2} :
+Init == \E str \in Strs(L), dm \in 1..(L + 2) :       \* dmax from two below the string length (the extent cuts the string) to two above
           LET b == str \o <<0, 7, 7>>
-              dm == Len(str) + extra
-          IN /\ dm >= 1
+          IN /\ dm + 2 >= Len(str) /\ dm <= Len(str) + 2
              /\ s = [buf0 |-> b, dmax0 |-> dm, buf |-> b, pos |-> 1, calls |-> <<>>, rets |-> <<>>, nulls |-> 0, err |-> FALSE]
 
 Call(di) ==
